@@ -23,6 +23,10 @@ BOUNDS = {'quick': 'L(1,2), L(1,3), L(2,2) over one 3-value palette; quick cone 
 TECHNIQUE = 'bounded exhaustive enumeration of problem data; truth decided by an exact rational LP oracle or by construction'
 
 PALETTES = [[-1, 0, 1], [-2, 0, 1], [-1, 0, 2], [1, 0, -3]]
+# two 'optimal' answers each carry their own gap guarantee (gap <= 1e-7 or relative gap <= 1e-6), reached from different
+# start points they may sit on opposite sides of the optimum: their objectives differ by at most the sum of the guarantees
+# (observed: 1.01e-6 relative between a cold start and a user start point in the thorough tier); 1e-5 as in C06
+PATHTOL = 1e-5
 DOC_EXC = (ValueError, TypeError)
 
 
@@ -156,7 +160,7 @@ def run(case):
                 if lab == 'optimal':
                     vals.append(res['primal objective'])
                 _tag(O, nv, inst, cfg)
-            if vals and max(vals) - min(vals) > 1e-6 * max(1.0, abs(vals[0])):
+            if vals and max(vals) - min(vals) > PATHTOL * max(1.0, abs(vals[0])):
                 O.bad('objective-differs-across-paths@conelp', 'optimal values of the solver paths differ: %r' % vals)
     elif case['fam'] == 'qp-eq':
         # equality-constrained QPs with positive definite P, solved (a) without inequalities - coneqp's direct path - and
@@ -203,7 +207,7 @@ def run(case):
                             else:
                                 O.bad('status:%s@%s' % (lab, cfg['entry']), 'status %r on a well-posed QP' % lab)
                         _tag(O, nv, inst, cfg, ('P', 'q', 'G', 'h', 'dims', 'A', 'b'))
-                    if vals and max(vals) - min(vals) > 1e-6 * max(1.0, abs(vals[0])):
+                    if vals and max(vals) - min(vals) > PATHTOL * max(1.0, abs(vals[0])):
                         O.bad('objective-differs-across-paths@coneqp:no-inequalities', 'optimal values of the solver paths differ: %r' % vals)
                 if len(O.viol) > 30:
                     break
@@ -246,7 +250,7 @@ def run(case):
                             O.bad('status:%s@%s' % (lab, cfg['entry']), 'undocumented status %r' % lab)
                 note(('wp:' if pd else 'np:') + lab)
                 _tag(O, nv, inst, cfg, ('P', 'q', 'G', 'h', 'dims', 'A', 'b'))
-            if vals and max(vals) - min(vals) > 1e-6 * max(1.0, abs(vals[0])):
+            if vals and max(vals) - min(vals) > PATHTOL * max(1.0, abs(vals[0])):
                 O.bad('objective-differs-across-paths@coneqp', 'optimal values of the solver paths differ: %r' % vals)
     else:
         pb = nlsolve.base_problems(case['seed'])[case['idx']]
